@@ -759,9 +759,13 @@ func (c *Connection) write(ctx context.Context, msg Message) error {
 		}
 		err = s.shuttingDown(ErrServerClosing)
 	})
-	if err == nil {
-		err = c.writer.Write(ctx, msg)
+	if err != nil {
+		// The message was refused because the connection is shutting down. That
+		// is not a failure of the Writer: it must not mark the connection as
+		// broken, which would cancel the handlers that are still running.
+		return err
 	}
+	err = c.writer.Write(ctx, msg)
 
 	// For cancelled or rejected requests, we don't set the writeErr (which would
 	// break the connection). They can just be returned to the caller.
